@@ -36,7 +36,7 @@ class CsvProjectIo(ProjectIoInterface):
             skipinitialspace=True,
             na_values=["None", "none"],
             sep=sep,
-            dtype={"label": str},
+            dtype={"label": str, "expression": str},
             float_precision="round_trip",
         )
         df.columns = [column.lower() for column in df.columns]
